@@ -1457,6 +1457,10 @@ def _load_memmap(cls, prefix: Path, metadata: dict, **kwargs):
         td = TensorDict.load_memmap(
             prefix / "_tensordict", **kwargs, non_blocking=False
         )
+        if issubclass(cls, NonTensorData) and not td.is_empty():
+            # non-tensor data has no tensor entry: these were left there by a
+            # tensorclass saved in the same directory before
+            td = td.empty()
     else:
         if not issubclass(cls, NonTensorData):
             raise ValueError("The _tensordict directory seems to be missing.")
